@@ -128,6 +128,17 @@ def inject_expr(e, rng, p):
             new = ("cmp", new[1], [(rng.choice(["in", "notin"]), cont), (rng.choice(["==", "!="]), rng.choice([("bool", True), ("var", "l"), cont]))])
     elif t in ("and", "or"):
         new = (t, inject_expr(e[1], rng, p), inject_expr(e[2], rng, p))
+        if rng.chance(p, 50):
+            # an undefined LEFT operand whose `and` / `or` result goes to a consumer that tolerates undefined
+            inner = (t, ("var", "undef%d" % rng.below(3)), new[2])
+            c = rng.below(4)
+            if c == 0:
+                return ("test", rng.choice(["defined", "undefined"]), inner, [], rng.chance(1, 3))
+            if c == 1:
+                return ("ifexpr", ("bool", True), ("filter", "default", inner, [("bool", rng.chance(1, 2))]), ("none",))
+            if c == 2:
+                return ("cmp", ("filter", "length", ("list", [inner]), []), [("==", ("int", 1))])
+            return ("test", "defined", ("ifexpr", ("bool", True), inner, None), [], False)
     elif t == "ifexpr":
         new = ("ifexpr", inject_expr(e[1], rng, p), inject_expr(e[2], rng, p), None if e[3] is None else inject_expr(e[3], rng, p))
     elif t == "item":
